@@ -5,6 +5,7 @@ from vlib import framework as F
 from vlib import streams, gen
 sys.path.insert(0, os.path.join(C.VERIF, "extract"))
 import x4_rlflow
+import x3_sliceguards
 
 ASSUMPTIONS = [
     "recursion-counter balance is proved on the control-flow terms extracted from the clang AST (conditions abstracted to nondeterministic choice: over-approximation, can only alarm falsely); nested calls are either analysed functions or do not touch the counter",
@@ -116,7 +117,8 @@ VALID = ["get a 0 0 0 10 f64", "get l2 1 0 2 0 f64", "get mp 0 2 0 20 f64", "eof
 
 def run(ctx):
     ok, lr, infos = F.lean_obligations(
-        ctx, MODULES, [lambda: x4_rlflow.emit(C.REPO, os.path.join(C.LEAN, "GdModel", "Generated"))])
+        ctx, MODULES, [lambda: x4_rlflow.emit(C.REPO, os.path.join(C.LEAN, "GdModel", "Generated")),
+                       lambda: x3_sliceguards.main(C.REPO)])
     try:
         harness = C.build_harness("gdh", ["gdh.c"])
     except RuntimeError as e:
